@@ -55,12 +55,19 @@ func pickType(c *simkit.Choices, allowUnsupported bool) *model.TypeEntry {
 
 // genStream draws a well-formed basic event stream: the fold of a catalogue
 // value, or a free-form generated stream.
+// sameTypeSource is the value whose fold the current stream is, when the
+// stream was produced from a value of the target's own type (else nil).
+var sameTypeSource interface{}
+
 func genStream(c *simkit.Choices, x *simkit.Ctx, like *model.TypeEntry) ([]simkit.Ev, string) {
+	sameTypeSource = nil
 	switch c.N(4) {
 	case 0, 1:
 		// same shape as the target (compatible unless lengths are inflated)
 		if like != nil && like.Supported {
-			if evs := reuse.RecordFold(like.Gen(c)); evs != nil {
+			v := like.Gen(c)
+			if evs := reuse.RecordFold(v); evs != nil {
+				sameTypeSource = v
 				return evs, "fold(" + like.Name + ")"
 			}
 		}
@@ -131,7 +138,113 @@ func deliverPrefix(te *model.TypeEntry, preset interface{}, evs []simkit.Ev, k i
 	return r
 }
 
+// soak: ONE unfolder goes through hundreds to tens of thousands of abandoned
+// documents (Reset + SetTarget each time) before the probe: state that leaks a
+// little per abandoned document and only matters once it has accumulated.
+func soak(c *simkit.Choices, x *simkit.Ctx) *simkit.Violation {
+	st := x.Stats
+	cycles := []int{200, 1000, 3000, 6000, 12000, 25000}[c.N(6)]
+	if !x.Thorough && cycles > 12000 {
+		cycles = 12000
+	}
+	// a small pool of (type, stream) pairs, each abandoned at a drawn depth
+	type item struct {
+		te  *model.TypeEntry
+		evs []simkit.Ev
+		k   int
+	}
+	var pool []item
+	for i, n := 0, 1+c.N(4); i < n; i++ {
+		te := pickType(c, false)
+		var evs []simkit.Ev
+		if c.Bool() {
+			evs = reuse.RecordFold(te.Gen(c))
+		}
+		if evs == nil {
+			for _, op := range model.GenOps(c, model.OpsOpts{Hints: true, MaxDepth: 5, Budget: 12, MaxStr: 10, DeepChains: true}) {
+				evs = append(evs, model.ExpandOp(op)...)
+			}
+		}
+		if len(evs) < 2 {
+			continue
+		}
+		pool = append(pool, item{te, evs, 1 + c.N(len(evs)-1)})
+	}
+	if len(pool) == 0 {
+		return nil
+	}
+	pte := pickType(c, false)
+	probe := reuse.RecordFold(pte.Gen(c))
+	if probe == nil {
+		return nil
+	}
+	sc := &Scenario{Target: "soak", StreamOf: fmt.Sprintf("%d abandoned documents from a pool of %d", cycles, len(pool)), ProbeType: pte.Name, Probe: simkit.EventsString(probe, 30), K: cycles}
+	for _, it := range pool {
+		sc.Announced = append(sc.Announced, fmt.Sprintf("%s abandoned after %d of %d events", it.te.Name, it.k, len(it.evs)))
+	}
+	simkit.SetCurrent(sc)
+	st.Eval(1)
+	st.Fault("abandon-soak")
+	st.Distinct(simkit.NewDigest().Str("soak").Int(cycles).Str(fmt.Sprint(sc.Announced)).Str(sc.Probe).Sum())
+	var fresh, got interface{}
+	var ferr, gerr error
+	if pi := simkit.Guard(func() {
+		ptr, _, val := pte.NewTarget()
+		u, err := gotype.NewUnfolder(ptr)
+		if err != nil {
+			ferr = err
+			return
+		}
+		ferr = deliverAll(u, probe, false)
+		fresh = model.DeepCopy(val())
+	}); pi != nil {
+		return nil
+	}
+	pi := simkit.Guard(func() {
+		u, err := gotype.NewUnfolder(nil)
+		if err != nil {
+			gerr = err
+			return
+		}
+		for i := 0; i < cycles; i++ {
+			if i%512 == 0 {
+				x.Alive()
+			}
+			it := pool[i%len(pool)]
+			ptr, _, _ := it.te.NewTarget()
+			if u.SetTarget(ptr) != nil {
+				continue
+			}
+			for j := 0; j < it.k; j++ {
+				if simkit.Emit(u, it.evs[j], false) != nil {
+					break
+				}
+			}
+			u.Reset()
+		}
+		x.Clock += uint64(cycles)
+		ptr, _, val := pte.NewTarget()
+		if gerr = u.SetTarget(ptr); gerr != nil {
+			return
+		}
+		gerr = deliverAll(u, probe, false)
+		got = model.DeepCopy(val())
+	})
+	if pi != nil {
+		return &simkit.Violation{Kind: "panic", Site: "soak" + pi.Site, Detail: pi.Value + "\n" + pi.Stack, Scenario: sc}
+	}
+	if (gerr == nil) != (ferr == nil) || (ferr == nil && !model.DeepEq(fresh, got)) {
+		return &simkit.Violation{Kind: "probe-differs", Site: "soak->" + pte.Name,
+			Detail: fmt.Sprintf("after %d abandoned documents on one unfolder the probe built %s (err %v); a new unfolder builds %s (err %v)", cycles, model.Render(got), gerr, model.Render(fresh), ferr), Scenario: sc}
+	}
+	st.Probe("soak-completed")
+	return nil
+}
+
 func (Engine) Run(c *simkit.Choices, x *simkit.Ctx) *simkit.Violation {
+	if c.N(60) == 0 {
+		return soak(c, x)
+	}
 	st := x.Stats
 	unfolderVariant = 0
 	if c.N(4) == 0 {
@@ -161,6 +274,7 @@ func (Engine) Run(c *simkit.Choices, x *simkit.Ctx) *simkit.Violation {
 		evs = model.MutateStream(c, evs, 1+c.N(3))
 		src += "+mutated"
 		treeSrc = nil
+		sameTypeSource = nil
 	}
 	// a re-used target: pre-populated with a value of its type (non-nil
 	// slices, maps and pointers) in a third of the runs
@@ -291,6 +405,16 @@ func (Engine) Run(c *simkit.Choices, x *simkit.Ctx) *simkit.Violation {
 					Detail: fmt.Sprintf("a matching document for a type whose user-defined processing unfolder nests: want %s, got %s (err %v)", model.Render(want), model.Render(r.value()), r.err), Scenario: sc}
 			}
 			st.Probe("nested-user-unfolder-exact")
+		}
+		if sameTypeSource != nil && k == len(evs) && len(sc.Announced) == 0 && preset == nil && unfolderVariant == 0 && te.ExactRoundTrip() {
+			// ground truth: the fold of a value of the target's own type, delivered
+			// completely into a zero target, reproduces the value (measured to be
+			// exact for these types on the pinned tree)
+			if r.err != nil || !model.DeepEqLoose(sameTypeSource, r.value()) {
+				return &simkit.Violation{Kind: "value-corrupted", Site: te.Name + "/round-trip",
+					Detail: fmt.Sprintf("the complete fold of a %s was unfolded into a zero %s: want %s, got %s (err %v)", te.Name, te.Name, model.Render(sameTypeSource), model.Render(r.value()), r.err), Scenario: sc}
+			}
+			st.Probe("matching-document-exact")
 		}
 		if r.err == nil && k == len(evs) && preset != nil && plainStruct[te.Name] {
 			if why := untouchedFieldsChanged(preset, r.value(), stream); why != "" {
